@@ -115,10 +115,9 @@ fn len_pick(rng: &mut Rng, max: usize, small: bool) -> usize {
 
 fn text_pick(rng: &mut Rng, max: usize, small: bool) -> String {
     let n = len_pick(rng, max, small);
-    if rng.bool() {
-        rng.ascii(n)
-    } else {
-        rng.text_bytes(n)
+    match crate::schema::gen_text(rng, n) {
+        V::T(b) => String::from_utf8(b).unwrap_or_default(),
+        _ => String::new(),
     }
 }
 
@@ -155,7 +154,7 @@ fn list_of<T: Copy, const N: usize>(rng: &mut Rng, table: &[(T, &str)]) -> (heap
 pub fn gen_user(c: &mut Ctl) -> (PublicKeyCredentialUserEntity, V) {
     let mut id = {
         let n = len_pick(c.rng, 64, c.small);
-        c.rng.bytes(n)
+        crate::schema::gen_bytes_content(c.rng, n)
     };
     let mut u = PublicKeyCredentialUserEntity::from(hb(&mut id));
     let mut m = vec![(V::text("id"), V::B(id))];
@@ -198,7 +197,7 @@ pub fn gen_rp(c: &mut Ctl) -> (PublicKeyCredentialRpEntity, V) {
 pub fn gen_descriptor(c: &mut Ctl) -> (PublicKeyCredentialDescriptor, V) {
     let mut id = {
         let n = len_pick(c.rng, 255, c.small);
-        c.rng.bytes(n)
+        crate::schema::gen_bytes_content(c.rng, n)
     };
     let mut ty = if c.rng.chance(3, 4) { "public-key".to_string() } else { text_pick(c.rng, 32, true) };
     let d = PublicKeyCredentialDescriptor {
@@ -264,7 +263,7 @@ pub fn gen_att_stmt(c: &mut Ctl) -> (AttestationStatement, V) {
     let alg = *c.rng.pick(&[-7i32, -8, -257, 0, 23, 24, -24, -25, 255, 256, 65536, i32::MAX, i32::MIN]);
     let mut sig = {
         let n = len_pick(c.rng, 77, c.small);
-        c.rng.bytes(n)
+        crate::schema::gen_bytes_content(c.rng, n)
     };
     let sigb = hb(&mut sig);
     let mut m = vec![(V::text("alg"), V::int(alg as i128)), (V::text("sig"), V::B(sig))];
@@ -281,7 +280,7 @@ pub fn gen_att_stmt(c: &mut Ctl) -> (AttestationStatement, V) {
                 }
                 None => len_pick(c.rng, 1024, c.small),
             };
-            let mut cert = c.rng.bytes(n);
+            let mut cert = crate::schema::gen_bytes_content(c.rng, n);
             items.push(hb::<1024>(&mut cert));
             model.push(V::B(cert));
         }
@@ -312,7 +311,7 @@ fn gen_auth_data(c: &mut Ctl) -> Vec<u8> {
             _ => c.rng.usize(if c.small { 80 } else { 677 }),
         },
     };
-    c.rng.bytes(n)
+    crate::schema::gen_bytes_content(c.rng, n)
 }
 
 pub fn gen_ctap_options(c: &mut Ctl) -> (get_info::CtapOptions, V) {
@@ -394,7 +393,7 @@ pub fn gen_certifications(c: &mut Ctl) -> Option<(get_info::Certifications, V)> 
 pub fn gen_get_info(c: &mut Ctl) -> (get_info::Response, V) {
     c.idx = 0;
     let (versions, vm) = list_of::<_, 4>(c.rng, &VERSIONS);
-    let mut aag = if c.rng.chance(7, 8) { c.rng.bytes(16) } else { { let n = c.rng.usize(17); c.rng.bytes(n) } };
+    let mut aag = if c.rng.chance(7, 8) { c.rng.bytes(16) } else { { let n = c.rng.usize(17); crate::schema::gen_bytes_content(c.rng, n) } };
     let mut r = get_info::ResponseBuilder {
         versions,
         aaguid: hb(&mut aag),
@@ -536,7 +535,7 @@ pub fn gen_get_assertion(c: &mut Ctl) -> (get_assertion::Response, V) {
     let mut ad = gen_auth_data(c);
     let mut sig = {
         let n = len_pick(c.rng, 77, c.small);
-        c.rng.bytes(n)
+        crate::schema::gen_bytes_content(c.rng, n)
     };
     let mut r = get_assertion::ResponseBuilder {
         credential: cred,
@@ -598,7 +597,7 @@ pub fn gen_client_pin(c: &mut Ctl) -> (client_pin::Response, V) {
     if c.top() {
         let mut t = {
             let n = len_pick(c.rng, 48, c.small);
-            c.rng.bytes(n)
+            crate::schema::gen_bytes_content(c.rng, n)
         };
         r.pin_token = Some(hb(&mut t));
         m.push((V::U(2), V::B(t)));
@@ -696,7 +695,7 @@ pub fn gen_large_blobs(c: &mut Ctl) -> (large_blobs::Response, V) {
             Some(b) => b.min(cap),
             None => len_pick(c.rng, cap, c.small),
         };
-        let mut b = c.rng.bytes(n);
+        let mut b = crate::schema::gen_bytes_content(c.rng, n);
         r.config = Some(hb(&mut b));
         m.push((V::U(1), V::B(b)));
     }
